@@ -38,6 +38,16 @@ func errAtom(s *Seg, v ssa.Value) (rel, name string, ok bool) {
 			return "temporary", "net.Error.Temporary", true
 		}
 	case *ssa.BinOp:
+		// strings.Index(err.Error(), lit) != -1 / >= 0 / > -1  ==  strings.Contains(err.Error(), lit)
+		if c, isC := s.Resolve(t.X).(*ssa.Call); isC && (calleeFull(&c.Call) == "strings.Index" || calleeFull(&c.Call) == "strings.LastIndex") && len(c.Call.Args) == 2 {
+			if lit, isL := constString(c.Call.Args[1]); isL {
+				if k, isK := constInt(t.Y); isK {
+					if (t.Op == token.NEQ && k == -1) || (t.Op == token.GEQ && k == 0) || (t.Op == token.GTR && k == -1) {
+						return "contains", lit, true
+					}
+				}
+			}
+		}
 		if t.Op == token.EQL {
 			if n := errName(t.Y); n != "" {
 				return "eq", n, true
